@@ -236,7 +236,7 @@ def _coherent(rec, obj, sig):
     L = maxnorm(obj.vertices) if hasattr(type(obj), "vertices") else float(np.linalg.norm(obj.centroid)) + 1e-300
     if hasattr(obj, "radius"):
         L += float(obj.radius)
-    a = observe.canonical(observe.observe(obj))
+    a = observe.canonical(observe.observe(obj, isolated=True))
     b = observe.canonical(observe.observe(fr))
     observe.compare(rec, a, b, L, observe.is3d(obj), sig, "vs_fresh_", rtol=1e-9, skip=("gsd_shape_spec", "repr", "polygon", "polyhedron"))
 
